@@ -14,6 +14,8 @@ pub struct KnownEntry {
     pub key: String,
     pub probe: String,
     pub what: String,
+    /// extra attempts for schedule-dependent probes (`retries=<n>` token)
+    pub retries: u32,
 }
 
 #[derive(Clone, Debug, Default)]
@@ -35,7 +37,7 @@ impl Known {
                     Some((h, w)) => (h.trim(), w.trim().to_string()),
                     None => (rest.trim(), String::new()),
                 };
-                let mut e = KnownEntry { property: String::new(), key: String::new(), probe: String::new(), what };
+                let mut e = KnownEntry { property: String::new(), key: String::new(), probe: String::new(), what, retries: 0 };
                 for tok in head.split_whitespace() {
                     if let Some(v) = tok.strip_prefix("property=") {
                         e.property = v.to_string();
@@ -43,6 +45,8 @@ impl Known {
                         e.key = v.to_string();
                     } else if let Some(v) = tok.strip_prefix("probe=") {
                         e.probe = v.to_string();
+                    } else if let Some(v) = tok.strip_prefix("retries=") {
+                        e.retries = v.parse().unwrap_or(0);
                     }
                 }
                 if e.property == property && !e.key.is_empty() {
